@@ -593,7 +593,7 @@ func TestVerif_C12(t *testing.T) {
 		r.Bounds["max_nodes"] = maxNodes
 		r.Bounds["pair_split_max_len"] = pairMax
 		r.Bounds["bufio_sizes"] = []int{16, 32, 4096}
-		r.Rule = "every RESP value tree with <= max_nodes nodes (attribute frame = 1 node) over types + - : $ _ # , ( ! = * ~ % > with RESP2 nulls, streamed strings (every 2-way chunking) and streamed aggregates; single-node replies use the full payload alphabet ('', a, OK, OKx, CRLF, a CRLF b, binary, 40 bytes, frame look-alikes), children a reduced one; each encoding (own encoder) + '+NEXT' is decoded by the real readNextMessage through bufio readers of 16/32/4096 bytes with the stream cut at every single position, one byte per read, and (thorough, encodings <= 24 bytes) at every pair of positions; streamTo on every scalar/aggregate single-node reply with 0-2 push frames in front, both writer kinds. non-trivial = tree with aggregate, attribute, streamed form, CRLF in payload or payload > 16 bytes"
+		r.Rule = "every RESP value tree with <= max_nodes nodes (attribute frame = 1 node) over types + - : $ _ # , ( ! = * ~ % > with RESP2 nulls, streamed strings (every 2-way chunking) and streamed aggregates; single-node replies use the full payload alphabet ('', a, OK, OKx, CRLF, a CRLF b, binary, 40 bytes, frame look-alikes), children a reduced one (thorough: a second pass with a larger child alphabet up to max_nodes-1 nodes); each encoding (own encoder) + '+NEXT' is decoded by the real readNextMessage through bufio readers of 16/32/4096 bytes with the stream cut at every single position, one byte per read, and (thorough, encodings <= 24 bytes) at every pair of positions; streamTo on every scalar/aggregate single-node reply with 0-2 push frames in front, both writer kinds. non-trivial = tree with aggregate, attribute, streamed form, CRLF in payload or payload > 16 bytes"
 		r.Assume("bufio.Reader size >= 32 as enforced by rueidis.go (ReadBufferEachConn < 32 -> default); the 16 byte reader is only used when every number line of the encoding fits into 16 bytes")
 		r.Assume("streamTo on a reply preceded by an attribute frame: only frame consumption is checked (weak reading: the streaming sentence of the property speaks of string/integer/float replies; Redis sends no attributes today); observed behaviour is recorded as an outcome")
 		r.Assume("booleans through streamTo: the property names string, integer and float replies only, so only exact frame consumption is checked for '#'")
@@ -601,7 +601,7 @@ func TestVerif_C12(t *testing.T) {
 		r.Assume("integers carry an optional '-' only; the '+' sign allowed by the RESP3 grammar is never sent by Redis and is probed separately as a note")
 
 		attr := []*c12node{c12leaf('+', "ttl"), {Typ: ':', Num: 3600}}
-		inner := &c12gen{leaves: c12innerLeaves(thorough), memo: map[int][]*c12node{}, fmemo: map[int][][]*c12node{}, attr: attr}
+		inner := &c12gen{leaves: c12innerLeaves(false), memo: map[int][]*c12node{}, fmemo: map[int][][]*c12node{}, attr: attr}
 
 		runTree := func(tr *c12node) bool {
 			c := &c12case{Kind: "decode", Tree: tr}
@@ -672,32 +672,6 @@ func TestVerif_C12(t *testing.T) {
 				}
 			}
 		}
-		// 2. all trees up to maxNodes nodes over the inner alphabet; push as an additional root type.
-	outer2:
-		for size := 1; size <= maxNodes; size++ {
-			for _, tr := range inner.trees(size) {
-				idx++
-				if !r.Mine(idx) {
-					continue
-				}
-				if !runTree(tr) {
-					break outer2
-				}
-			}
-			if size >= 2 {
-				for _, f := range inner.forests(size - 1) {
-					idx++
-					if !r.Mine(idx) {
-						continue
-					}
-					if !runTree(&c12node{Typ: '>', Kids: f}) {
-						break outer2
-					}
-				}
-			}
-		}
-		r.Bounds["trees_generated"] = idx
-
 		// 3. streamTo
 		var streamRoots []*c12node
 		streamRoots = append(streamRoots, top...)
@@ -760,6 +734,45 @@ func TestVerif_C12(t *testing.T) {
 				}
 			}
 		}
+
+		// 2. all trees up to maxNodes nodes over the inner alphabet; push as an additional root type.
+		// thorough: a second pass with the extended inner alphabet up to maxNodes-1 nodes.
+		passes := []struct {
+			g   *c12gen
+			max int
+		}{{inner, maxNodes}}
+		if thorough {
+			passes = append(passes, struct {
+				g   *c12gen
+				max int
+			}{&c12gen{leaves: c12innerLeaves(true), memo: map[int][]*c12node{}, fmemo: map[int][][]*c12node{}, attr: attr}, maxNodes - 1})
+		}
+	outer2:
+		for _, ps := range passes {
+			for size := 1; size <= ps.max; size++ {
+				for _, tr := range ps.g.trees(size) {
+					idx++
+					if !r.Mine(idx) {
+						continue
+					}
+					if !runTree(tr) {
+						break outer2
+					}
+				}
+				if size >= 2 {
+					for _, f := range ps.g.forests(size - 1) {
+						idx++
+						if !r.Mine(idx) {
+							continue
+						}
+						if !runTree(&c12node{Typ: '>', Kids: f}) {
+							break outer2
+						}
+					}
+				}
+			}
+		}
+		r.Bounds["trees_generated"] = idx
 
 		// 4. probes of forms that the grammar allows but Redis does not send (notes only)
 		if r.Mine(0) {
